@@ -65,13 +65,18 @@ def S_attr(ex, ctx, base, attr):
         return C.attr_model(ex, ctx, base, attr)
     if z3.is_expr(base) and base.sort() == M.Dim and attr == "name":
         return [(ctx, ("__dimname__", base))]
+    if z3.is_expr(base) and base.sort() == M.Val:
+        tri = FE.val_assumption(base, attr)
+        if tri is not None:
+            return [(ctx, tri)]
     return None
 
 
 def getattr_default(ex, ctx, base, name, default):
-    if z3.is_expr(base) and base.sort() == M.Val and name == "is_zero":
-        FE.assumed("Expr.is_zero", "x.is_zero is True exactly for numeric zeros (exact or floating point); None/False otherwise")
-        return [(ctx, z3.And(M.v_kind(base) == M.FIN, M.Val.re(base) == 0, M.Val.im(base) == 0))]
+    if z3.is_expr(base) and base.sort() == M.Val:
+        tri = FE.val_assumption(base, name)
+        if tri is not None:
+            return [(ctx, tri)]
     return None
 
 
@@ -588,6 +593,29 @@ def callsite_replay(mod, fn, missing):
         "params = set(inspect.signature(f).parameters)\n"
         "assert kw is not None and set(kw) <= params, ('guard keywords', sorted(set(kw or ()) - params), 'name no parameter of', sorted(params))\n")
     return try_replay(script)
+
+
+def shared_callee_obligations(report, user: str):
+    """The functions that C05-C08 use through their C04 contracts (is_any_dimension, is_number, assert_equivalent_dimension) are
+    re-verified inside the run of each property that depends on them: a change to a callee that breaks the CALLER's property fails
+    that property's own check, not only C04's (modular verification: the caller is checked against the callee's contract, so the
+    contract itself must be discharged in the same run)."""
+    from ..contracts import refimpl
+    try:
+        obs, execs = obligations_core()
+        conc = refimpl.concretizer("gate", seed())
+        for ex in execs:
+            ex.obligations = [(n, h, g_, s_, c_ or conc) for n, h, g_, s_, c_ in ex.obligations]
+            obs.extend(discharge(ex, UNIT))
+        report.extend(obs)
+        from . import c04_probe
+        c04_probe.run(report)
+        report.extra["shared_callee_obligations"] = f"{len(obs)} obligations of the C04 contracts of is_any_dimension / is_number / assert_equivalent_dimension re-discharged for {user}"
+    except Exception as e:  # the callee left the modelled subset: fault + executable-contract search
+        refimpl.generation_fallback(report, "gate", user, f"shared callee contracts: {type(e).__name__}: {e}", seed())
+    for f, rel in (("dimensions.miscellaneous.is_any_dimension", "core/dimensions/miscellaneous.py"), ("dimensions.miscellaneous.is_number", "core/dimensions/miscellaneous.py"),
+                   ("dimensions.dimensions.assert_equivalent_dimension", "core/dimensions/dimensions.py")):
+        report.function("symplyphysics.core." + f, PKG / rel, note="callee contract (C04), re-discharged in this run")
 
 
 def run(report):
